@@ -153,6 +153,8 @@ func evalTSSParams(e *env, c Case) Res {
 			p.SigningPeriod = c.Value
 		case "max_de_size":
 			p.MaxDESize = c.Value
+		case "max_group_size":
+			p.MaxGroupSize = c.Value
 		default:
 			panic("tss param " + c.Param)
 		}
@@ -176,6 +178,16 @@ func (d *driver) runTSSParams() {
 						cases = append(cases, Case{Kind: "tssparams", Param: pn, Value: v, Flags: fl, Cnt: t, Seed: seeds[1], ChainID: engine.ChainID})
 					}
 				}
+			}
+		}
+	}
+	// max_group_size is enforced at group creation only: lowering it afterwards must not change which members of an
+	// EXISTING larger group are eligible.  5-member groups, the limit lowered to every value below / at / above the
+	// group size after the group exists; errors are NOT tolerated here when enough members are available.
+	for _, v := range []uint64{0, 1, 2, 3, 4, 5, ^uint64(0)} {
+		for _, fl := range flagVectors([]byte{'a', 'A', 'I', 'N'}, 5) {
+			for _, t := range []int{3, 2} {
+				cases = append(cases, Case{Kind: "tssparams", Param: "max_group_size", Value: v, Flags: fl, Cnt: t, Seed: seeds[1], ChainID: engine.ChainID})
 			}
 		}
 	}
